@@ -9,7 +9,7 @@ from __future__ import annotations
 
 import ast
 
-from ..astutil import calls_in, dotted, enclosing_stmt, is_within, kwarg, src, walk_local
+from ..astutil import ancestors, calls_in, dotted, enclosing_stmt, is_within, kwarg, src, walk_local
 from ..cfg import cfg_of
 from ..loader import AnalysisError
 from ..terms import Evaluator, backend_method, contains, find, show, walk
@@ -208,22 +208,28 @@ def r3_skip_whitelist(ctx):
             return bool(defs) and all(_is_body(f, d, depth + 1) for d in defs)
         return False
 
+    from .guards import guard_edges
+    from ..cfg import cfg_of as _cfg
+
     for f in chain:
+        fcfg = _cfg(f.node)
+        skip_edges, _pass_edges, found = guard_edges(f.node)
         for r in walk_local(f.node):
             if isinstance(r, ast.Return) and not _is_body(f, r.value):
                 n_skip += 1
+                # the "no body" outcome is reached only through a skip edge of the user filter or of the ownership-tag test
+                # (whatever the spelling / polarity of those tests), never inside an exception handler
+                in_handler = any(isinstance(a, ast.ExceptHandler) for a in ancestors(r))
+                nodes = fcfg.nodes_of(r, 'stmt')
+                ok = bool(skip_edges) and bool(nodes) and not in_handler and all(fcfg.set_dominates(skip_edges, x) for x in nodes)
                 guard = None
                 cur = r
                 while cur is not None and cur is not f.node:
                     par = getattr(cur, '_parent', None)
-                    if isinstance(par, ast.If) and any(cur is s for s in par.body):
-                        guard = par
-                        break
-                    if isinstance(par, ast.ExceptHandler):
+                    if isinstance(par, (ast.If, ast.ExceptHandler)):
                         guard = par
                         break
                     cur = par
-                ok = isinstance(guard, ast.If) and (_is_filter_guard(guard.test) or _is_tag_guard(guard.test))
                 ctx.check(
                     ok,
                     'C02.R3',
@@ -242,13 +248,36 @@ def r3_skip_whitelist(ctx):
                 f'{f.qual}: every normal path ends in an explicit return (a body) or raise',
                 f'{f.qual}: can fall off the end and return None - the snapshot would be silently skipped',
             )
-    ctx.floor('C02.R3', 'whitelisted skip paths in the snapshot loader', n_skip, 2)
+    ctx.floor('C02.R3', 'whitelisted skip paths in the snapshot loader', n_skip, 1)
     # every listed snapshot path is handed to the loader (no listing entry is dropped)
     from ..cfg import cfg_of
 
     lcfg = cfg_of(ls.node)
     loops = [l for l in walk_local(ls.node) if isinstance(l, (ast.For, ast.AsyncFor)) and any(isinstance(a, ast.Attribute) and a.attr == 'list_files' for a in ast.walk(l.iter))]
-    ctx.floor('C02.R3', 'loop over the snapshot listing', len(loops))
+    # comprehension form: {submit(loader, entry, path): path async for path in <listing>} - no filter clause allowed
+    from ..cfg import deref_at as _deref_at
+
+    comps = []
+    for cm in ast.walk(ls.node):
+        if isinstance(cm, (ast.DictComp, ast.ListComp, ast.SetComp)) and len(cm.generators) == 1:
+            g = cm.generators[0]
+            it = _deref_at(ls.node, g.iter) if isinstance(g.iter, ast.Name) else g.iter
+            if any(isinstance(a, ast.Attribute) and a.attr == 'list_files' for a in ast.walk(it)):
+                comps.append((cm, g))
+    for cm, g in comps:
+        parts = [cm.key, cm.value] if isinstance(cm, ast.DictComp) else [cm.elt]
+        tname = getattr(g.target, 'id', None)
+        submits = [c for p_ in parts for c in ast.walk(p_) if isinstance(c, ast.Call) and isinstance(c.func, ast.Attribute) and c.func.attr in ('run_in_executor', 'submit') and any(isinstance(a, ast.Name) and a.id in {e.name for e in entries} for a in c.args) and any(isinstance(a, ast.Name) and a.id == tname for a in c.args)]
+        ctx.check(
+            bool(submits) and not g.ifs,
+            'C02.R3',
+            f'{func_label(ls)}|every-listed-snapshot-submitted',
+            loc(ls, cm),
+            '_load_snapshots submits a load for every path the listing returns (comprehension without a filter clause)',
+            '_load_snapshots can pass over a listed snapshot without loading it (filter clause in the submitting comprehension / no submission): '
+            'delete/clean then compute their keep sets without that snapshot and remove its chunks',
+        )
+    ctx.floor('C02.R3', 'loop over the snapshot listing', len(loops) + len(comps))
     for l in loops:
         subs = [enclosing_stmt(c) for c in calls_in(l) if isinstance(c.func, ast.Attribute) and c.func.attr in ('run_in_executor', 'submit') and any(isinstance(a, ast.Name) and a.id in {e.name for e in entries} for a in c.args) and any(isinstance(a, ast.Name) and a.id == getattr(l.target, 'id', None) for a in c.args)]
         sub_ok = [x for st in subs for x in lcfg.nodes_of(st, 'ok')]
